@@ -76,6 +76,11 @@ Definition entry_E5d (orc : oracle) (name : string) (v : value) : option value :
     let g := @mk_grad QOps (getB (arg 0 gv)) (pr (arg 1 gv)) (pr (arg 2 gv)) (getQ (arg 3 gv)) (getQ (arg 4 gv)) (aff_of (arg 5 gv)) (getB (arg 6 gv)) in
     Some (v_res (fun r : @grad QOps => VL [VL [VQ (fst (g_p1 r)); VQ (snd (g_p1 r))]; VL [VQ (fst (g_p2 r)); VQ (snd (g_p2 r))]; v_aff (g_tf r); VB (negb (g_bbox_units r))])
                 (transformed_gradient (N:=QOps) (round_nd QOps 6) (fun a => Affine2D_round QOps a 6) g (rect_of (arg 1 v)) (aff_of (arg 2 v))))
+  else if name =? "gradient_from_element" then
+    (* [radial, [[k, v]...], vbw, vbh] -> [p1, p2, r, fr, bbox_units] *)
+    let tbl := map (fun e => (getS (arg 0 e), getS (arg 1 e))) (getL (arg 1 v)) in
+    Some (v_res (fun r : @grad QOps => VL [VL [VQ (fst (g_p1 r)); VQ (snd (g_p1 r))]; VL [VQ (fst (g_p2 r)); VQ (snd (g_p2 r))]; VQ (g_r r); VQ (g_fr r); VB (g_bbox_units r)])
+                (from_element (QMath orc) (getB (arg 0 v)) (fun k => assoc_str_opt k tbl) (getQ (arg 2 v)) (getQ (arg 3 v)) (Affine2D_identity QOps)))
   else if name =? "resolve_chain" then
     let maps := map (fun m => map (fun e => (getS (arg 0 e), getS (arg 1 e))) (getL m)) (getL (arg 1 v)) in
     let fields := map (fun f => map getS (getL f)) (getL (arg 0 v)) in
